@@ -83,6 +83,21 @@ impl<'a> Evaluator<'a> {
             "atom" => self.profile.atom(t[1].as_i64().unwrap()),
             "lit" => t[1].as_str().unwrap().as_bytes().to_vec(),
             "zero" => vec![0u8; self.len_of(&t[1])?],
+            "ones" => vec![0xffu8; self.len_of(&t[1])?],
+            "skc" => {
+                let ex = self.ke.extreme_sks();
+                match t[1].as_str().unwrap() {
+                    "one" | "clampmin" => ex[0].clone(),
+                    _ => ex[1].clone(),
+                }
+            }
+            "krand" => {
+                let tape = t[1].as_i64().unwrap();
+                match self.rnd.get(&(tape, "krand".to_string())) {
+                    Some(b) => b.clone(),
+                    None => return Err(EvalErr::NeedRnd(tape, "krand".into())),
+                }
+            }
             "i2" => {
                 let n = self.len_of(&t[1])?;
                 let k = t[2].as_u64().unwrap() as usize;
